@@ -59,14 +59,12 @@ pub uninterp spec fn f32_widen(v: f32) -> f64;
     ensures r matches Value::Map(mm)
         && (forall|k: Key| #[trigger] mm.map@.contains_key(k) <==> (k matches Key::String(s) && m@.contains_key(*s)))
         && (forall|s: Arc<String>| m@.contains_key(*s) ==> #[trigger] mm.map@[Key::String(s)] == Value::List(m@[*s])) { unimplemented!() }
-/// `From<chrono::Duration> for Value` / `From<DateTime<FixedOffset>> for Value` (magic.rs impl_conversions!, proved in group magic)
-#[verifier::external_body] pub fn __duration_into_value(d: chrono::Duration) -> (r: Value) ensures r == Value::Duration(d) { unimplemented!() }
-#[verifier::external_body] pub fn __timestamp_into_value(t: chrono::DateTime<chrono::FixedOffset>) -> (r: Value) ensures r == Value::Timestamp(t) { unimplemented!() }
-/// `str::parse::<DateTime<FixedOffset>>()` (chrono's RFC 3339 parser; ASSUMED deterministic)
-pub uninterp spec fn rfc3339_parse(s: Seq<char>) -> Option<chrono::DateTime<chrono::FixedOffset>>;
-#[verifier::external_body] pub fn __parse_datetime(v: &str) -> (r: Result<chrono::DateTime<chrono::FixedOffset>>)
-    ensures match rfc3339_parse(v@) { Some(t) => r == Ok::<chrono::DateTime<chrono::FixedOffset>, SerializationError>(t), None => r matches Err(SerializationError::SerdeError(_)) } { unimplemented!() }
-
+// `From<chrono::Duration> for Value` / `From<DateTime<FixedOffset>> for Value` are generated in /repo by impl_conversions! (magic.rs,
+// `$value_variant(value)`, verified instance by instance in group magic); hand-written stand-ins here
+impl FromSpecImpl<chrono::Duration> for Value { open spec fn obeys_from_spec() -> bool { true } open spec fn from_spec(v: chrono::Duration) -> Value { Value::Duration(v) } }
+impl From<chrono::Duration> for Value { fn from(v: chrono::Duration) -> Value { Value::Duration(v) } }
+impl FromSpecImpl<chrono::DateTime<chrono::FixedOffset>> for Value { open spec fn obeys_from_spec() -> bool { true } open spec fn from_spec(v: chrono::DateTime<chrono::FixedOffset>) -> Value { Value::Timestamp(v) } }
+impl From<chrono::DateTime<chrono::FixedOffset>> for Value { fn from(v: chrono::DateTime<chrono::FixedOffset>) -> Value { Value::Timestamp(v) } }
 // ---- property C17: the shapes ----
 /// the CEL string with exactly these characters
 pub open spec fn is_str(v: Value, s: Seq<char>) -> bool { v matches Value::String(t) && t@ == s }
